@@ -172,7 +172,16 @@ def gen_formula(rng, nts, depth=2, bound=None):
     if r < 0.82:
         v = rng.choice(["<x>", "<y>"])
         q = rng.choice(["forall", "exists"])
-        return f"{q} {v} in {gen_selector(rng, nts, base=bound if bound and rng.random() < 0.4 else None)}: {gen_formula(rng, nts, depth - 1, v)}"
+        qsel = gen_selector(rng, nts, base=bound if bound and rng.random() < 0.4 else None)
+        if rng.random() < 0.3:
+            # a length selector that starts at the bound symbol (counted below the bound node, not over the whole tree)
+            child, desc = relations(nts)
+            last = pyre.findall(r"<\w+>", qsel)[-1] if not qsel.endswith("]") else None
+            suffix = ""
+            if last in child and child[last] and rng.random() < 0.75:
+                suffix = "." + rng.choice(sorted(child[last])) if rng.random() < 0.6 or not desc.get(last) else ".." + rng.choice(sorted(desc[last]))
+            return f"{q} {v} in {qsel}: |{v}{suffix}| {rng.choice(['==', '!=', '<', '>=', '>'])} {rng.randint(0, 3)}"
+        return f"{q} {v} in {qsel}: {gen_formula(rng, nts, depth - 1, v)}"
     if rng.random() < 0.6:
         # nested comprehension quantifiers over identifier-bound variables; the inner body mentions the outer variable
         q1, q2 = rng.choice(["any", "all"]), rng.choice(["any", "all"])
